@@ -61,6 +61,17 @@ def cells(fns: List[str]) -> List[Dict[str, Any]]:
             # results beyond the int range: a function whose result is stored or typed as an int would wrap
             big = [a if i else f"({a} * 100000000.0 + 0.5)" for i, a in enumerate(args)]
             C.append({"id": f"{f}:large", "fn": f, "expr": f"{f}({', '.join(big)})"})
+        if f in ("pow", "sqrt", "cbrt", "exp2", "log2", "fabs", "abs", "floor", "ceil", "hypot", "fmax", "fmin", "atan2", "fmod", "ldexp", "sin", "log1p"):
+            # integer-typed arguments (a count, a method declared int, integer literals): the call and everything computed from
+            # it is floating arithmetic, as in C and in Python
+            iargs = {"pow": ["(j.nTrk() + 1)", "2"], "hypot": ["j.nTrk()", "j.hits().Count()"], "fmax": ["j.nTrk()", "3"], "fmin": ["j.nTrk()", "3"], "atan2": ["j.nTrk()", "2"],
+                     "fmod": ["(j.nTrk() + 7)", "4"], "ldexp": ["(j.nTrk() + 1)", "3"]}.get(f, ["(j.nTrk() + 1)"])
+            icall = f"{f}({', '.join(iargs)})"
+            C.append({"id": f"{f}:int_args_div", "fn": f, "expr": f"({icall} / 8)"})
+            C.append({"id": f"{f}:int_args_div_count", "fn": f, "expr": f"({icall} / (j.hits().Count() + 2))"})
+            if f == "pow":
+                C.append({"id": "pow:int_base_exponents", "fn": f, "expr": "(pow(j.nTrk() + 1, 2.0) / 8 + pow(j.hits().Count() + 1, 3) / 16 + pow(j.nTrk() + 1, 2) * 0.5)"})
+                C.append({"id": "pow:large_int_base", "fn": f, "expr": "pow(j.nTrk() * 10000 + 50000, 2)"})
     return C
 
 
